@@ -53,7 +53,7 @@ theorem starAny_of_all (k : Str → Bool) (hk : ∀ s, k s = true) (s : Str) : s
 theorem globT_star_nil (s : Str) : globT [.star] s = true := by
   simp only [globT]
   induction s with
-  | nil => simp [starAny, globT]
+  | nil => simp [starAny]
   | cons c s ih => simp [starAny, ih]
 
 theorem tok_slash_star : tokAux .top ['/', '*'] = [.lit '/', .star] := by
